@@ -278,4 +278,15 @@ PROPS = {
         "assumptions": ["word-level assumption: aligned accesses of one uniform element size per array; witnesses leaving it or reading a never-written cell are dropped", "range bounds inclusive (cfg.hpp, implementation and tests)"],
         "trusted_base": COMMON_TB + ["models: CrabModel/Dom/{ArraySem,ArraySmash,ArrayCells}.lean; driver replay Driver/ArrH.lean"],
     },
+    "C15": {
+        "level": "proof",
+        "lean_modules": ["CrabProofs.Props.C15"],
+        "components": [{"harness": f"h_rgn_{d}", "source": "h_rgn", "defines": [f"-DVDOM={d}"], "quick": 400, "thorough": 6000,
+                        "shards": 1, "corpus": "h_rgn",
+                        "nontrivial": lambda l: "(ld " in l and "(st " in l,
+                        "accept": lambda v, r, m: "[C15]" in m or v == "DRIFT"} for d in range(1, 7)],
+        "rule": "operation histories over a pool of 3 abstract values with integer, boolean, reference (4) and region (3 int, 2 reference, 1 unknown) variables: numeric ops, region_init, ref_make (distinct allocation sites), gep (constant/symbolic offsets), store, load, region_copy, region_cast, free, ref_assume (null/non-null/eq/ne), select_ref, tags, join/widen/meet/narrow/copy, over region_domain x {intervals, split_dbm, flat_bool(intervals), array_adaptive(intervals), constants, sign-constants} with region_domain_params drawn per history; each history runs in a forked child (a crash is a result); the Lean driver replays it on concrete witness heaps and checks loaded values, definite is_null_ref answers, allocation-site and tag sets; non-trivial = the history stores and loads",
+        "assumptions": ["region-based memory model (disjoint regions, a reference points into one region); witnesses that leave it (out-of-bounds pointer arithmetic, use after free, foreign reference, never-written cell) are dropped", "references from the environment are not modelled (initial references are null)"],
+        "trusted_base": COMMON_TB + ["models: CrabModel/Dom/{RegionSem,RegionSmash}.lean, CrabModel/Scalar/SmallRange.lean; driver replay Driver/RgnH.lean"],
+    },
 }
